@@ -64,7 +64,9 @@ def tlc_scenarios(work, n, seed_):
     return res
 
 
-MIXED_UNDECODABLE = os.environ.get("VERIF_C20_MIXED_UNDECODABLE", "0") == "1"
+# undecodable bytes are published in scenarios with filtered subscriptions too (the partial-delivery defect this used to
+# expose is repaired in /repo: see known_findings.txt, fixed: property=C20 c3f60c4)
+MIXED_UNDECODABLE = True
 BAD_KINDS = ["empty-payload", "empty-payload", "truncated", "short", "version"]
 
 
@@ -73,9 +75,7 @@ def decorate(sc, r):
     * client connections: streams opened over one connection share the peer address of their context;
     * an extra subscription whose request carries filter entries of an unknown kind (all of them, or mixed with
       emitter filters);
-    * published bytes that do not decode as a VAA -- only where every subscription of the scenario is filter-less:
-      with a filtered subscription present the current Publish stops at the first filtered subscription it visits (map
-      order), see proposals/C20-undecodable-vaa-partial-delivery.txt; VERIF_C20_MIXED_UNDECODABLE=1 lifts the limit."""
+    * published bytes that do not decode as a VAA, with and without filtered subscriptions present."""
     steps = sc["steps"]
     subs = [st for st in steps if st["ev"] == "Subscribe"]
     if subs and r.random() < 0.5:
